@@ -7,7 +7,9 @@ Cmds == <<
   C("function", <<"@">>),
   C("function", <<"dup", "a">>), C("function", <<"dup", "b", "_p_a">>),     \* the same name defined twice, differently
   C("function", <<"_p_@", "_p_a", "b">>),
-  C("function", <<"@", "\"_p_q\"", "_p_a">>),     \* a quoted parameter: the pattern ^_p_ does not apply to it as written
+  \* a quoted parameter with two blanks (shown as written; the pattern does not apply to it), a parameter that begins
+  \* with '_' but has no second one (no strip pattern of the harness matches it), a bracket parameter
+  C("function", <<"@", "\"_p_q  two\"", "_r", "_p_a", "[[x   y]]">>),
   Trig(C("macro", <<"@", "_p_a">>)),
   C("macro", <<"@">>),
   C("endfunction", <<>>), C("endmacro", <<>>),
